@@ -16,6 +16,7 @@ import NumqiProofs.CatalogueGenShifts
 import NumqiProofs.CatalogueSixparam
 import NumqiProofs.CatalogueUpbTables
 import NumqiProofs.CatalogueMeasures
+import NumqiProofs.CatalogueEprobe9
 import Mathlib.Analysis.SpecialFunctions.Trigonometric.Basic
 
 set_option linter.unusedSectionVars false
@@ -294,6 +295,20 @@ theorem eprobe8_hermitian (dim m r c : ℕ) : eprobe8 dim m c r = conj (eprobe8 
 so the `4·dim` rank-one projectors resolve `4·1`); exact Gaussian-integer computation for `dim = 4, 6, 8, 10, 12` -/
 theorem eprobe9_unitary_partial :
     ∀ b < 4, ∀ dim ∈ [4, 6, 8, 10, 12], eprobe9Unitary b dim = true := by decide +kernel
+
+/-- **`eq9`, every even `dim ≥ 4`, every basis index: the rows of each basis are orthonormal** (`Σ_c conj(B i c)·B j c = 2 δ_ij` for
+the `√2`-scaled Gaussian-integer entries): the row half of `Eprobe9Unitary.Statement`, unbounded.  Rows `2k, 2k+1` share the support
+`{p, q}` with `q`-entries `±u`; rows of different pairs have disjoint supports (uses `dim` even for the wrap-around column `(2k+2) % dim`). -/
+theorem eprobe9_rows_orthonormal (b dim : ℕ) (hd : 4 ≤ dim) (he : dim % 2 = 0) : eprobe9RowsOK b dim = true :=
+  eprobe9RowsOK_all b dim hd he
+
+/-- non-vacuity / sharpness: for odd `dim` the wrap-around column collides and the rows are *not* orthonormal -/
+example : eprobe9RowsOK 1 5 = false ∧ eprobe9RowsOK 1 6 = true := by decide +kernel
+
+/-- the remaining (column / completeness) half of the full statement follows from the row half for `dim ≤ 12`; open beyond -/
+theorem eprobe9Unitary_iff_cols (b dim : ℕ) (hd : 4 ≤ dim) (he : dim % 2 = 0) :
+    eprobe9Unitary b dim = eprobe9ColsOK b dim := by
+  simp [eprobe9Unitary, eprobe9_rows_orthonormal b dim hd he]
 
 /-- full statement (every even `dim ≥ 4`); open — proved and tied for even `dim = 4, …, 12`, probed beyond -/
 def Eprobe9Unitary.Statement : Prop := ∀ b < 4, ∀ dim, 4 ≤ dim → dim % 2 = 0 → eprobe9Unitary b dim = true
